@@ -544,7 +544,21 @@ func (g *schemaGenerator) generateType(t *schemas.Type, scope nameScope) (codege
 			return ncg, nil
 		}
 
+		g.addImportsOfPointedType(cg)
+
 		return cg, nil
+	}
+}
+
+// addImportsOfPointedType adds the imports a nullable (pointer-wrapped) library type needs,
+// e.g. *time.Time for {"type": ["string", "null"], "format": "date-time"}.
+func (g *schemaGenerator) addImportsOfPointedType(t codegen.Type) {
+	if pt, ok := t.(*codegen.PointerType); ok {
+		if nt, ok := pt.Type.(codegen.NamedType); ok && nt.Package != nil {
+			for _, imprt := range nt.Package.Imports {
+				g.output.file.Package.AddImport(imprt.QualifiedName, "")
+			}
+		}
 	}
 }
 
@@ -979,6 +993,8 @@ func (g *schemaGenerator) generateTypeInline(t *schemas.Type, scope nameScope) (
 
 				return ncg, nil
 			}
+
+			g.addImportsOfPointedType(cg)
 
 			return cg, nil
 		}
